@@ -29,6 +29,11 @@ for s in $seeds; do
   [ "$s" = "C15-k" ] && checks="C15 C17"   # router lock held for the whole request: commands return late (C17)
   [ "$s" = "C17-k" ] && checks="C17 C08"   # recursive read lock in the pause gate: deadlock with a stop / pause (C08, C07, C18 scenarios with arriving requests)
   [ "$s" = "C18-k" ] && checks="C18 C02"   # pooled in-flight records cancelled by a finished drain: requests failing during a redeploy
+  [ "$s" = "C01-l" ] && checks="C01 C17"   # the failure is reported late (k x deploy timeout): return times are C17's
+  [ "$s" = "C03-l" ] && checks="C03 C05"   # a redeploy keeping several path prefixes leaves all but one bound to the replaced copy: C05's multi-prefix histories
+  [ "$s" = "C04-l" ] && checks="C04 C06"   # a refused redeploy drops the live service from the map: C06 compares state after every failing command
+  [ "$s" = "C16-l" ] && checks="C16 C06"   # availability check ends at the first free host (as C04-k): C06's rejected multi-host deploys
+  [ "$s" = "C18-l" ] && checks="C18 C17"   # one deadline channel shared by all draining targets: the command outlasts its drain timeout (C17)
   [ "$s" = "C11-i" ] && checks="C11 C12"   # a save skipped while another snapshot is being written: overlapping commands = C12's pairs
   if grep -q '"neutralised_by"' seeded/$s/meta.json 2>/dev/null; then
     echo "$s neutralised-by-a-later-fix (see meta.json: its trigger no longer exists; demo passes on the rebased patch)" | tee -a $tmp
